@@ -1045,7 +1045,10 @@ class ApertureStats:
         The centroid is computed as the center of mass of the unmasked
         pixels within the aperture.
         """
-        origin = np.transpose((self.bbox_xmin, self.bbox_ymin))
+        # the cutouts are trimmed to the data array, so their origin is
+        # the bounding-box origin clipped to the array
+        origin = np.transpose((np.maximum(self.bbox_xmin, 0),
+                               np.maximum(self.bbox_ymin, 0)))
         return self.cutout_centroid + origin
 
     @lazyproperty
